@@ -80,6 +80,7 @@ def strategy(cell, tier):
         "shape": st.sampled_from(range(len(SHAPES[rank]))),
         # order of the fields in the structured dtype (any permutation is a valid array) and an extra non-coordinate field
         "perm": st.integers(0, 23), "extra": st.sampled_from((None, None, "first", "last", "middle")),
+        "alt": st.integers(0, 2), "layout": st.sampled_from((None, None, "aligned", "offsets")),
         "idx": st.lists(one, min_size=6, max_size=10),
     })
 
@@ -136,25 +137,60 @@ def check_case(cell, case, ctx):
             ctx.exclude("operand_not_representable")
             return
         rows.append(tuple(float(x) for x in R.from_cartesian(sa, c)))
-    base = build.np_array(sa, rows, mom)
-    if case.get("perm") or case.get("extra"):
-        import itertools
+    # the structured array is assembled here, independently of the class under test: field names in the spelling under test
+    # (momentum arrays: px py pt pz and one of E/e/energy, mass/M/m), any field order, an optional non-coordinate field, and
+    # a memory layout that is packed, aligned with padding, or a multi-field view of a wider record (explicit offsets)
+    import itertools
 
-        fnames = list(base.dtype.names)
-        order = list(list(itertools.permutations(range(len(fnames))))[case.get("perm", 0) % math.factorial(len(fnames))])
-        fields = [(fnames[i], numpy.float64) for i in order]
-        if case.get("extra"):
-            pos = {"first": 0, "last": len(fields), "middle": len(fields) // 2}[case["extra"]]
-            fields.insert(pos, ("charge", numpy.int64))
-        raw = numpy.zeros(len(base), dtype=fields)
-        for nm in fnames:
-            raw[nm] = base.view(numpy.ndarray)[nm]
-        if case.get("extra"):
-            raw["charge"] = numpy.arange(len(base)) % 3 - 1
-        base = raw.view(type(base))
+    names = R.coord_names(sa)
+    spelled = build.names_for(sa, "momentum" if mom else "generic", case.get("alt", 0))
+    order = list(list(itertools.permutations(range(len(names))))[case.get("perm", 0) % math.factorial(len(names))])
+    fields = [(spelled[i], numpy.float64) for i in order]
+    if case.get("extra"):
+        pos = {"first": 0, "last": len(fields), "middle": len(fields) // 2}[case["extra"]]
+        fields.insert(pos, ("charge", numpy.int64))
+    layout = case.get("layout")
+    nrow = len(rows)
+    if layout == "aligned":
+        raw = numpy.zeros(nrow, dtype=numpy.dtype([("flag", numpy.int8)] + fields + [("tag", numpy.int16)], align=True))
+        raw["flag"], raw["tag"] = 7, 513
+    elif layout == "offsets":
+        wide = numpy.zeros(nrow, dtype=[("event", numpy.int64)] + fields + [("weight", numpy.float64)])
+        wide["event"], wide["weight"] = numpy.arange(nrow) + 1000, 0.125
+        raw = wide[[f[0] for f in fields]]
+    else:
+        raw = numpy.zeros(nrow, dtype=fields)
+    truth = {}
+    for j, nm in enumerate(names):
+        col = numpy.array([r[j] for r in rows], dtype=numpy.float64)
+        raw[spelled[j]] = col
+        truth[nm] = col
+    if case.get("extra"):
+        truth["charge"] = numpy.arange(nrow) % 3 - 1
+        raw["charge"] = truth["charge"]
+    cls = (build.NP_MOM if mom else build.NP_GEN)[d]
+    ctx.evaluation()
+    try:
+        base = raw.view(cls)
+    except Exception as e:  # noqa: BLE001
+        ctx.fail("exception", f"[{variant}] viewing a structured array {raw.dtype} as {cls.__name__} raised {type(e).__name__}: {e!s:.200}",
+                 op="view", variant=f"{d}{cell['sa']}", backend="numpy")
+        return
+    # the view holds the stored columns (read back by geometric name) and the extra field, bit for bit
+    for nm, col in truth.items():
+        try:
+            got = numpy.ascontiguousarray(base.view(numpy.ndarray)[nm])
+        except Exception as e:  # noqa: BLE001
+            ctx.fail("view_column", f"[{variant}] {raw.dtype} viewed as {cls.__name__}: field {nm!r} is not readable ({e!r})",
+                     op="view", variant=f"{d}{cell['sa']}", backend="numpy")
+            return
+        if got.tobytes() != numpy.ascontiguousarray(col).tobytes():
+            ctx.fail("view_column", f"[{variant}] layout={layout}: {raw.dtype} viewed as {cls.__name__}: field {nm!r} holds {got[:3]} "
+                     f"but the column stored under {spelled[names.index(nm)] if nm in names else nm!r} is {col[:3]}",
+                     op="view", variant=f"{d}{cell['sa']}", backend="numpy")
+            return
     arr = (base[:n] if n else base[:0]).reshape(shape)
     plain = numpy.array(arr.view(numpy.ndarray), copy=True)
-    names = R.coord_names(sa)
     arrcls = type(arr)
     objname = (OBJ_MOM if mom else OBJ_GEN)[d]
 
@@ -172,11 +208,13 @@ def check_case(cell, case, ctx):
         if got.shape != want.shape:
             fail("shape", f"{what}: shape {got.shape}, plain ndarray indexing gives {want.shape}", op)
             return False
-        g = numpy.ascontiguousarray(got.view(numpy.ndarray))
-        w = numpy.ascontiguousarray(want)
-        if g.tobytes() != w.tobytes():
-            fail("value", f"{what}: values differ from plain ndarray indexing: {g.reshape(-1)[:3]} vs {w.reshape(-1)[:3]}", op)
-            return False
+        g = got.view(numpy.ndarray)
+        for fname in plain.dtype.names:
+            if g.dtype.fields[fname][0] != want.dtype.fields[fname][0] or \
+                    numpy.ascontiguousarray(g[fname]).tobytes() != numpy.ascontiguousarray(want[fname]).tobytes():
+                fail("value", f"{what}: field {fname!r} differs from plain ndarray indexing: {g[fname].reshape(-1)[:3]} vs "
+                     f"{want[fname].reshape(-1)[:3]}", op)
+                return False
         if isinstance(got, Momentum) != mom or obs.system_of(got) != sa:
             fail("class", f"{what}: flavor/system changed: {type(got).__name__} {obs.system_of(got)}", op)
             return False
@@ -325,4 +363,5 @@ def check_case(cell, case, ctx):
 
 
 def describe(cell, case):
-    return {"shape": SHAPES[cell["rank"]][case["shape"]], "idx": case["idx"], "perm": case.get("perm"), "extra": case.get("extra")}
+    return {"shape": SHAPES[cell["rank"]][case["shape"]], "idx": case["idx"], "perm": case.get("perm"), "extra": case.get("extra"),
+            "alt": case.get("alt"), "layout": case.get("layout")}
